@@ -98,4 +98,17 @@ structure SignerSignOptions where
 
 end «notation»
 
+/- round 5: signer/plugin.go and internal/envelope/envelope.go, in namespaces of C11's own -/
+namespace c11.content
+/-- oras-go `content.Equal`: size, digest and media type -/
+def Equal (a b : ocispec.Descriptor) : Bool := a.Size == b.Size && a.Digest == b.Digest && a.MediaType == b.MediaType
+end c11.content
+
+namespace c11.signer
+/-- `signer.PluginSigner` as far as `mergeConfig` reads it -/
+structure PluginSigner where
+  pluginConfig : GoLite.Map String String
+  deriving DecidableEq, Repr, Inhabited
+end c11.signer
+
 end NotationModel.Src
